@@ -98,7 +98,9 @@ class Preservative:
     def CollectFile(self, filename_and_path) -> None:
         self.preserved_tags_per_file[filename_and_path] = {}
         self.preserved_tags_per_file_WAS_USED[filename_and_path] = {}
-        with open(filename_and_path) as f:
+        # surrogateescape: bytes that are invalid in the platform encoding are carried through
+        # unchanged (the output stage writes them back the same way) instead of aborting collection.
+        with open(filename_and_path, errors='surrogateescape') as f:
             is_preserving = False
             __current_preservation = None
             __current_preservation_line = ""
